@@ -645,6 +645,7 @@ func (r *Round) Clear() {
 // Restart - restart the round
 func (r *Round) Restart() error {
 	r.mutex.Lock()
+	defer r.mutex.Unlock()
 	if r.getState() >= Share {
 		return CompleteRoundRestartError
 	}
@@ -653,7 +654,6 @@ func (r *Round) Restart() error {
 	r.resetSoftTimeoutCount()
 	r.ResetPhase(ShareVRF)
 
-	r.mutex.Unlock()
 	return nil
 }
 
